@@ -230,7 +230,7 @@ class Summaries:
 
 
 def _subst(t, sub):
-    if not isinstance(t, tuple):
+    if not isinstance(t, tuple) or not t:
         return t
     if t[0] == "param" and t[1] in sub:
         return sub[t[1]]
